@@ -32,4 +32,3 @@ func c01Section(cidBytes, data []byte) []byte {
 }
 
 type c01KV struct{ key, value []byte }
-
